@@ -139,9 +139,33 @@ func Main(p Property) {
 		raceBin = flag.String("race-bin", "", "path of the -race build of this binary")
 		list    = flag.Bool("list", false, "list planned cases")
 		only    = flag.String("only", "", "run only cases whose id contains this string (in-process, verbose)")
+		seeds   = flag.Int("seeds", envInt("VERIF_SEEDS", 1), "number of consecutive seeds whose plans are united (deterministic cases that repeat are run once)")
 	)
 	flag.Parse()
 	seed, _ := strconv.ParseInt(*seedS, 10, 64)
+	if *seeds > 1 {
+		// the seeded parts of the plan differ from seed to seed, the exhaustive parts do not
+		inner, n := p.Plan, *seeds
+		p.Plan = func(tier string, seed int64) []Case {
+			seen := map[string]bool{}
+			var out []Case
+			for i := 0; i < n; i++ {
+				for _, c := range inner(tier, seed+int64(i)) {
+					kb, _ := json.Marshal(c.P)
+					k := c.ID + "|" + string(kb)
+					if seen[k] {
+						continue
+					}
+					seen[k] = true
+					if i > 0 {
+						c.ID = fmt.Sprintf("%s@seed%d", c.ID, seed+int64(i))
+					}
+					out = append(out, c)
+				}
+			}
+			return out
+		}
+	}
 	if p.CaseWatch == 0 {
 		p.CaseWatch = 30 * time.Second
 	}
@@ -174,6 +198,13 @@ func Main(p Property) {
 	default:
 		os.Exit(runParent(p, *tier, seed, *raceBin))
 	}
+}
+
+func envInt(k string, d int) int {
+	if v, err := strconv.Atoi(os.Getenv(k)); err == nil && v > 0 {
+		return v
+	}
+	return d
 }
 
 func envOr(k, d string) string {
